@@ -18,6 +18,14 @@ class BindError(Exception):
 
 
 class Exec(ExprMixin, CallMixin, BuiltinMixin, StmtMixin, ExecBase):
+    def _hide(self, c, label, st):
+        if label not in (c.needs or {}):
+            return st
+        keep = set(c.needs[label])
+        sub = st.copy()
+        sub.pc = [p for p in st.pc if self.inv_tags.get(p.get_id()) is None or self.inv_tags[p.get_id()] in keep]
+        return sub
+
     def __init__(self, repo, reg, prop=""):
         ExecBase.__init__(self, repo, reg, prop)
         self.regions = {}  # (fn short name, label) -> [region expr strings] (known findings: excluded input regions)
@@ -110,6 +118,9 @@ class Exec(ExprMixin, CallMixin, BuiltinMixin, StmtMixin, ExecBase):
                 env[g] = s.env[g]
         for k, v in s.env.items():
             env.setdefault("final_" + k, v)
+        for k, so in (c.local_sorts or {}).items():
+            if "final_" + k not in env:  # local not yet assigned on this exit path: arbitrary value
+                env["final_" + k] = fresh(so, "undef_" + k)
         if result is not None:
             env["result"] = result
         return env
@@ -135,7 +146,7 @@ class Exec(ExprMixin, CallMixin, BuiltinMixin, StmtMixin, ExecBase):
         for lab, ex in c.ensures:
             g = truth(self.eval_spec(ex, s, env, pre, c.module))
             goal = self._with_regions(c, lab, g, s, env)
-            self.oblige(s, goal, "ensures", lab)
+            self.oblige(self._hide(c, lab, s), goal, "ensures", lab)
 
     def _raise_exit(self, c, r, entry_env, pre):
         s = r.st
@@ -158,4 +169,4 @@ class Exec(ExprMixin, CallMixin, BuiltinMixin, StmtMixin, ExecBase):
         for key in (matched, short, "*"):
             for lab, ex in c.ensures_raise.get(key, []) if key else []:
                 g = truth(self.eval_spec(ex, s, env, pre, c.module))
-                self.oblige(s, self._with_regions(c, lab, g, s, env), "xensures", lab)
+                self.oblige(self._hide(c, lab, s), self._with_regions(c, lab, g, s, env), "xensures", lab)
